@@ -1,7 +1,7 @@
 SPECIFICATION TSpec
 CONSTANTS
   Profiles = {"P1", "P2"}
-  StmtSet = {"q0", "p0", "p2"}
+  StmtSet = {"q0", "p0", "p2", "b2"}
   CopySetters <- Setters
   MaxSets = 1000
   MaxLives = 6
